@@ -411,12 +411,23 @@ def C19(run):
 # =================================================================================================
 # C20
 
-def digest_election(p, o):
+def probe_text(p, o):
+    """the probe's ballot file; options under the key '_file' are written into it as a [droop ...] block"""
+    t = gen.blt(p)
+    fo = o.get('_file')
+    if fo:
+        first, rest = t.split('\n', 1)
+        t = first + '\n[droop ' + ' '.join('%s=%s' % kv for kv in fo.items()) + ']\n' + rest
+    return t
+
+
+def digest_election(p, o, profile=None):
     """construct, count, report (as the package's drivers do); returns the three renderings' digest and the record view"""
     from droop.profile import ElectionProfile
     from droop.election import Election
     try:
-        E = Election(ElectionProfile(data=gen.blt(p)), dict(o))
+        opts = {k: v for k, v in o.items() if k != '_file'}
+        E = Election(profile if profile is not None else ElectionProfile(data=probe_text(p, o)), opts)
         implrun.limited_count(E, 4.0)
         out = E.report() + '\x00' + E.dump() + '\x00' + E.json()
         return hashlib.sha256(out.encode()).hexdigest()
@@ -425,12 +436,20 @@ def digest_election(p, o):
 
 
 def _history(item):
+    """-> (digest after the history, digest of a second election on the *same* profile object, digest of a third on a new one)"""
+    from droop.profile import ElectionProfile
     hist, probe = item
     for p, o in hist:
         digest_election(p, o)
-    a = digest_election(*probe)
-    b = digest_election(*probe)
-    return a, b
+    try:
+        prof = ElectionProfile(data=probe_text(*probe))
+    except Exception as e:
+        x = 'EXC ' + type(e).__name__
+        return x, x, x
+    a = digest_election(probe[0], probe[1], prof)
+    b = digest_election(probe[0], probe[1], prof)
+    c = digest_election(*probe)
+    return a, b, c
 
 
 def fresh_map(func_name, items):
@@ -575,7 +594,13 @@ def C20(run):
                 ho['precision'] = rng.choice(['x', -1, None])      # failing initialisations belong to histories too
             hist.append((hp, ho))
         rule = rng.choice(gen.RULES)
-        items.append((hist, (gen.plain(rng, maxc=6, maxb=8, undeclared=(rule == 'mpls')), history_options(rng, rule))))
+        po = history_options(rng, rule)
+        if rng.random() < 0.4:
+            # some of the probe's options travel in the ballot file
+            keys = [k for k in po if k in ('arithmetic', 'precision', 'guard', 'display', 'omega', 'defeat_batch', 'integer_quota') and rng.random() < 0.7]
+            if keys:
+                po['_file'] = {k: str(po.pop(k)).lower() for k in keys}
+        items.append((hist, (gen.plain(rng, maxc=6, maxb=8, undeclared=(rule == 'mpls')), po)))
     res = common.pmap(_history, items, limit=60.0, chunksize=4)
     fresh = fresh_digests([probe for _, probe in items])
     nb = 0
@@ -583,15 +608,18 @@ def C20(run):
     for (hist, probe), r, f in zip(items, res, fresh):
         if r[0] == 'TIMEOUT':
             stats['timeout'] += 1; continue
-        a, b = r
+        a, b, c3 = r
         stats['probe:' + probe[1]['rule']] += 1
         stats['history-length:%d' % len(hist)] += 1
-        if a != f or b != f:
+        if probe[1].get('_file'):
+            stats['probe with options in the file'] += 1
+        if a != f or b != f or c3 != f:
             nb += 1
             if nb <= 3:
-                run.violation(dict(kind='implementation', what='the record depends on earlier elections in the process' if a != f else 'counting the same profile again differs',
+                run.violation(dict(kind='implementation', what='the record depends on earlier elections in the process' if a != f else
+                                   ('a second election object on the same profile gives a different record' if b != f else 'counting the same profile again differs'),
                                    history=[dict(blt=gen.blt(p), options=o) for p, o in hist], probe=dict(blt=gen.blt(probe[0]), options=probe[1]),
-                                   digest_after_history=a, digest_second_time=b, digest_fresh_process=f))
+                                   digest_after_history=a, digest_same_profile_object_again=b, digest_new_profile_again=c3, digest_fresh_process=f))
     # the class-state model (lean/DroopModel/Session.lean) against the real class attributes, history by history
     import props3
     sess = []
